@@ -4,4 +4,5 @@ def main (args : List String) : IO UInt32 := do
   match args with
   | ["docker"] => Oracle.serve Oracle.Misc.DockerO.handle; return 0
   | ["names"] => Oracle.serve Oracle.Misc.NamesO.handle; return 0
+  | ["sender"] => Oracle.serve Oracle.Misc.SendO.handle; return 0
   | _ => IO.eprintln "usage: oracle_misc docker|names|chunks|sender|helium"; return 2
